@@ -654,6 +654,12 @@ func (pace *Pace) loadCardSecurityFile() error {
 		return fmt.Errorf("[loadCardSecurityFile] NewCardSecurity error: %w", err)
 	}
 
+	// NB ReadFile reports a missing file as (nil,nil) and NewCardSecurity maps no data to (nil,nil),
+	//    but Chip Authentication Mapping cannot be verified without the chip's static public key
+	if pace.document.Mf.CardSecurity == nil {
+		return fmt.Errorf("[loadCardSecurityFile] EF.CardSecurity is missing or empty")
+	}
+
 	return nil
 }
 
